@@ -206,7 +206,7 @@ func c16Hand(media ...*genMedia) *genSDP {
 	}
 }
 
-const c16NumDirected = 8
+const c16NumDirected = 9
 
 // c16Directed: hand-written minimal cases, the same for every seed.
 func c16Directed(i int) *c16Case {
@@ -236,6 +236,12 @@ func c16Directed(i int) *c16Case {
 		c.Offer = c16Hand(c16M("video", "0", "sendrecv", vp8(96), rtx(97, 96), h264(102), rtx(103, 102)), c16M("video", "1", "sendrecv", h264(102), rtx(103, 102)))
 	case 6: // no common codec: rejected section
 		c.Offer = c16Hand(c16M("audio", "0", "sendrecv", opus(111)), c16M("video", "1", "sendrecv", genCodec{119, "FOO", 90000, 0, "", nil}))
+	case 7: // VP9 twice (profile 0 exact, profile 2 partial match) without / with rtx, engine knows VP9 profile 0 only (holds on the pinned tree)
+		vp9 := func(pt, profile int) genCodec {
+			return genCodec{pt, "VP9", 90000, 0, fmt.Sprintf("profile-id=%d", profile), genVideoFb}
+		}
+		c.Offer = c16Hand(c16M("video", "b", "sendrecv", vp9(120, 0), vp9(61, 2), rtx(101, 61)), c16M("video", "0", "sendrecv", vp9(120, 0), rtx(104, 120)))
+		c.EngineClass, c.Engine = "subset-default-pts", []c16Codec{tab[1], tab[5], tab[8]}
 	default: // renegotiation appends a section that numbers VP8 differently
 		c.Offer = c16Hand(c16M("video", "0", "sendrecv", vp8(96), rtx(97, 96)), c16M("application", "1", ""), c16M("video", "2", "sendonly", vp8(120), rtx(121, 120)))
 		c.Rounds, c.FirstN = 2, 2
@@ -572,6 +578,8 @@ func c16Classify(off *kit.SDPDesc, offIdents []map[string]c16Ident, ansIdents ma
 	switch {
 	case codecOfferedHere && in.HasPrefs && in.PTMode == "engine":
 		return "answer-pt-not-in-offer-section:codec-preference-pt-kept"
+	case in.PreMade && !in.HasPrefs:
+		return "answer-codec-not-offered:premade-transceiver-lists-kind-wide-codecs"
 	case codecOfferedHere && samePTElsewhere:
 		return "answer-pt-not-in-offer-section:same-codec-different-pt-across-sections"
 	case codecOfferedHere:
@@ -580,8 +588,6 @@ func c16Classify(off *kit.SDPDesc, offIdents []map[string]c16Ident, ansIdents ma
 		return "answer-codec-not-offered:codec-preference-not-intersected-with-section"
 	case !anyCommon:
 		return "answer-codec-not-offered:section-without-common-codec-accepted"
-	case in.PreMade:
-		return "answer-codec-not-offered:premade-transceiver-lists-kind-wide-codecs"
 	case codecElsewhere:
 		return "answer-codec-not-offered:offered-in-other-section"
 	default:
@@ -654,7 +660,7 @@ func (a *c16Answerer) info(mid string) c16SectionInfo {
 
 func TestVerifC16(t *testing.T) {
 	run := kit.Start(t, "C16", "seeded foreign offers (audio/video/application, payload types permuted per description and re-drawn per section, "+
-		"RTX incl. dangling apt, unsupported codecs, re-cased names; first 8 cases hand-written) against answerers whose MediaEngine uses pion's default "+
+		"RTX incl. dangling apt, unsupported codecs, re-cased names; first 9 cases hand-written) against answerers whose MediaEngine uses pion's default "+
 		"numbering, a private numbering or a subset, with 0..3 pre-created transceivers (70% with SetCodecPreferences, engine payload types or 0), "+
 		"multi-codec negotiation on/off, 30% with a second extended offer. A case counts when CreateAnswer succeeded; it is non-trivial when the answer "+
 		"accepts >= 1 audio/video section whose offer section numbers a common codec differently from the answerer's MediaEngine; distinct by offer structure + engine + locals")
